@@ -39,6 +39,10 @@ def run(ctx) -> None:
     r3_regex(ctx)
     r4_field_names(ctx)
     r5_reparse_sites(ctx)
+    r.rule("C05.R8", "renderings and the quoting decision look at the value, never at the unparsed `original` text (empty or stale for every derived value: slices for startswith/endswith/contains, concatenations, case mapping)")
+    from . import c03
+    c03.original_reads(ctx, "C05.R8")
+    r.floor("C05.R8", 2)
 
 
 def r1_target_escaping(ctx) -> None:
@@ -58,6 +62,24 @@ def r1_target_escaping(ctx) -> None:
     else:
         r.violation("C05.R1", f.qual, "escaped_chars lacks the escape character",
                     "the escape character itself is not escaped: a value ending in the escape character (x\\ with escape_char='\\' and str_quote='\"') renders as \"x\\\" — the backslash escapes the closing quote in the target language and the literal does not end; a backslash before a wildcard renders as \\* (an escaped, literal star)", loc)
+    # the set itself, evaluated for single- and multi-character wildcard tokens and absent wildcards
+    pre = [st for st in f.node.body if isinstance(st, (ast.Assign, ast.AnnAssign)) and unparse(st.targets[0] if isinstance(st, ast.Assign) else st.target) in ("escaped_chars", "filter_set")]
+    wrong = []
+    n_cfg = 0
+    for wm in (None, "*", ".*", "%%"):
+        for ws in (None, "?", ".", "_"):
+            for add in ("", '"x', "\\"):
+                it = Interp({"wildcard_multi": wm, "wildcard_single": ws, "add_escaped": add, "escape_char": "\\", "filter_chars": "&"})
+                it.run(pre)
+                got = set(it.env.get("escaped_chars", ()))
+                want = set((wm or "") + (ws or "") + add)
+                n_cfg += 1
+                if not (want <= got) or (got - want - {"\\"}):
+                    wrong.append(f"multi={wm!r} single={ws!r} add_escaped={add!r}: {sorted(got, key=str)} instead of {sorted(want)}")
+    if wrong:
+        r.violation("C05.R1", f.qual, f"escaped set: {wrong[0]}", f"{len(wrong)} of {n_cfg} configurations: the escaped set must consist of every *character* of the wildcard tokens and of add_escaped — a multi-character token kept as one element leaves its characters unescaped inside literals, where the target reads them as the wildcard", loc)
+    else:
+        r.ok("C05.R1", f.qual, f"escaped set evaluated for {n_cfg} configurations (single/multi-character/absent wildcard tokens): every character of the tokens and of add_escaped", loc)
     if defs["filter_set"] == ["frozenset(filter_chars)"]:
         r.ok("C05.R1", f.qual, "filter_set = frozenset(filter_chars)", loc)
     else:
